@@ -38,4 +38,3 @@ func GenOpts(rng *rand.Rand, k int) Opts {
 
 	return o
 }
-
